@@ -4,7 +4,7 @@
    byte for byte by suites W-splot / W-pl, and independent interpreters of the texts decide the
    property on the implementation over all 2^n selections. *)
 From Coq Require Import List Bool String ZArith.
-From FM Require Import Base.Result Model.Ast Model.FM Model.Queries Model.Sem Format.Export
+From FM Require Import Base.Result Base.AstOp Model.Ast Model.FM Model.Queries Model.Sem Format.Export
      Proofs.C18Facts Proofs.C10Facts.
 Import ListNotations.
 Local Open Scope list_scope.
@@ -41,3 +41,23 @@ Theorem C10_pl_no_feature_missing : forall m d, pl_write m = Ok d ->
   forall x, In x (names (root m)) -> exists p, In p d /\ pl_mentions x p.
 Proof. exact C10_pl_names. Qed.
 Print Assumptions C10_pl_no_feature_missing.
+
+(* non-vacuity: a model with an or-group, a [2..3] group, a mutex group and two constraints meets the premises *)
+Definition ex10 : fm :=
+  {| root := Feature (mk_info "R")
+       [ Relation 1 2 [leaf "A"; leaf "B"]; Relation 2 3 [leaf "C"; leaf "D"; leaf "E"];
+         Relation 0 1 [leaf "F"; leaf "G"]; Relation 0 1 [leaf "H"] ];
+     ctcs := [ {| c_name := "c1"; c_ast := bin IMPLIES (term "A") (un NOT (bin AND (term "C") (term "H"))) |};
+               {| c_name := "c2"; c_ast := bin OR (term "F") (bin REQUIRES (term "B") (term "D")) |} ] |}.
+Example C10_nonvacuous :
+  Forall (fun c => node_wf (c_ast c) = true /\ no_xe (c_ast c) = true /\ names_plain (c_ast c) = true) (ctcs ex10)
+  /\ Forall pl_rel_ok (subrelations (root ex10))
+  /\ (exists d, splot_write ex10 = Ok d) /\ (exists d, pl_write ex10 = Ok d).
+Proof.
+  split; [repeat constructor|]. split.
+  - repeat (apply Forall_cons || apply Forall_nil); unfold pl_rel_ok; cbn;
+      (repeat split; try (intro; discriminate); try (right; intro; discriminate); try (intros H; discriminate H);
+       repeat constructor; cbn; intuition discriminate).
+  - split; vm_compute; eexists; reflexivity.
+Qed.
+Print Assumptions C10_nonvacuous.
